@@ -158,11 +158,12 @@ theorem C17_cut_point (ic : Interceptors) (sa sb : Seg) (ha : SegOk ic sa) (hb :
           SegOk ic s1 ∧ SegOk ic { value := sa.value.drop l }) :=
   cutPoint ha hb hk hpos
 
-/-- The hypothesis on the PIECES cannot be dropped: with a brace inside a parameter name the cut of
-`longestPrefix` lands inside the token (`{a{b}x` against `{a{b}y`: cut at 2), so the cut-point claim
-is false for the pieces `splitString` produces from arbitrary strings (`GoodPiece`). -/
-theorem C17_cut_counterexample :
-    longestPrefix [123, 97, 123, 98, 125, 120] [123, 97, 123, 98, 125, 121] = 2 := by decide
+/-- Before the D28 repair the hypothesis on the PIECES could not be dropped: with a brace inside a parameter name the
+cut of `longestPrefix` landed inside the token (`{a{b}x` against `{a{b}y`: cut at 2, the inner `{` moved the start of
+the token). With the repair the scan keeps the start of the token at its first `{`: the cut is 0, the two texts become
+siblings, and no node is split inside a token. -/
+theorem C17_cut_inside_token_repaired :
+    longestPrefix [123, 97, 123, 98, 125, 120] [123, 97, 123, 98, 125, 121] = 0 := by decide
 
 /-! ## Non-vacuity -/
 
